@@ -122,7 +122,7 @@ def decorate(c, hist, tr, ruleset):
             else:
                 # entries on a resource without a rule: same arity as the common case, so the pooled option slice is reused in place
                 args, atts = rng.choice([[o['v']], [o['v']], [o['v'], 'x']]), {}
-            s.append(dict(op='req', id=o['id'], res=o['res'], args=args, atts=atts))
+            s.append(dict(op='req', id=o['id'], res=o['res'], args=args, atts=atts, b=rng.choice([1, 1, 1, 2, 3])))
         else:
             s.append(dict(op='exit', id=o['id']))
         if rng.random() < 0.08 and used:
@@ -163,7 +163,7 @@ def random_scenario(c, tr):
                 used.add((res, v))
             else:
                 args, atts = ([] if v == '-' else rng.choice([[v], [v], [v, 'y']])), {}
-            s.append(dict(op='req', id=nid, res=res, args=args, atts=atts))
+            s.append(dict(op='req', id=nid, res=res, args=args, atts=atts, b=rng.choice([1, 1, 1, 2, 3, 5])))
             live.append(nid)        # (an exit of a rejected request is skipped by the driver)
         elif x < 0.92:
             i = rng.choice([0, -1, rng.randrange(len(live))])    # FIFO, nested (LIFO), any order
